@@ -8,7 +8,7 @@
 (*    Call_X(args, result) == result \in Allowed_X(args)                   *)
 (* One TLC state per record; total monitor as in TraceHook.                *)
 (***************************************************************************)
-EXTENDS Oracles, Work, Grouping, Expansion, Tokens, TextA, Json, IOUtils, TLC
+EXTENDS Oracles, Work, Grouping, Expansion, Tokens, TextA, CloseMatchesA, InlineA, Patch, Json, IOUtils, TLC
 
 Rec == ndJsonDeserialize(IOEnv.TRACE)
 
@@ -41,6 +41,9 @@ CallViol(r) ==
     [] r.ev = "remap" -> RemapViol(r)
     [] r.ev = "helper" -> HelperViol(r)
     [] r.ev = "determ" -> DetermViol(r)
+    [] r.ev = "closematch" -> CloseMatchViol(r)
+    [] r.ev = "inline" -> InlineViol(r)
+    [] r.ev = "udiff" -> UdiffViol(r)
     [] r.ev = "same" -> IF r.a = r.b THEN {} ELSE {r.clause}
 
 TInit == l = 1 /\ bad = {}
